@@ -560,6 +560,11 @@ def targeted(world):
     f, g, h = w.coefs[()][:3]
     lists = [ufl.as_vector([f, g])[0], ufl.as_vector([f, g, h])[0], ufl.as_vector([f, g, g])[0],
              ufl.as_vector([g, f])[0], ufl.as_vector([f, g, h])[2], ufl.as_vector([f, h])[1]]
+    v2, v3, v2b = ufl.as_vector([f, g]), ufl.as_vector([f, g, h]), ufl.as_vector([f, h])
+    m2, m3 = ufl.as_matrix([[f, g], [g, h]]), ufl.as_matrix([[f, g, h], [g, h, f], [h, f, g]])
+    # variable-arity nodes below shape-erasing operators (so that the operands can be added / multiplied)
+    lists += [ufl.inner(v2, v2), ufl.inner(v3, v3), ufl.dot(v2, v2b), ufl.dot(v3, v3), v2[i] * v2[i], v3[i] * v3[i],
+              ufl.tr(m2), ufl.tr(m3), ufl.det(m2), ufl.det(m3), v2[i] * v2b[i]]
     fam.append(("listtensor-lengths", lists))
     fam.append(("exprlist-lengths", [ExprList(f, g), ExprList(f, g, h), ExprList(g, f), ExprList(f), ExprList(f, g, g)]))
     vs = [ufl.variable(f), ufl.variable(f), ufl.variable(g), ufl.variable(f * g), ufl.variable(g * f)]
